@@ -201,6 +201,17 @@ class Driver:
         self.history.append((op, out))
         return out
 
+    def apply_doomed(self, op):
+        """Apply a call that must be refused; the model is never advanced."""
+        self.world.clock.take_readings()
+        try:
+            getattr(self, 'do_' + op['op'])(op)
+            out = Outcome(True)
+        except Exception as e:  # noqa
+            out = Outcome(False, e)
+        self.history.append((op, out))
+        return out
+
     def _blob_fp(self, op):
         b = M.Blob(op['blob'], op['len'], op.get('overlays') or ())
         data = blob_data(b)
